@@ -331,7 +331,7 @@ class AsyncPolicy:
                         stop_reason=StopReason.ABORTED,
                     )
                 )
-            return build_aborted_outcome(ctx)
+            return build_aborted_outcome(ctx, attempts=1)
 
         except asyncio.CancelledError:
             record_cancel(ctx)
